@@ -17,6 +17,7 @@ EXPLANATION = (
     "transition back to InMemory re-initialises the filter (C04.T5). B9: the range merge can extend both bounds in one call. "
     "Decides these conservative-default / coverage structures, not the numeric agreement of the hash->bit mappings.")
 EXPLANATION += (" " + 'B11 at every construction of Bloom and every store into Bloom.inner the bit-vector length and bits_count have the same provenance (the on-disk probe and clear() use bits_count, add/contains use the vector length).')
+EXPLANATION += (" " + 'B10 also: every `true` result of checked_add_assign is preceded by or_with. B12 Bloom::new / new_from_shared_config / RangeFilter::new are called in src/blob only by the constructor of an empty in-memory index.')
 ASSUMPTIONS = []
 
 FR = 'filter::FilterResult'
